@@ -13,7 +13,7 @@ namespace Slug
 abbrev Art := RemoteSrc × FinderId
 
 /-- a registry request: registry source address, the offered versions the caller's constraint
-admits, and the finder for the package it resolves to -/
+allows, and the finder for the package it resolves to -/
 abbrev RegReq := RegSrc × List VerS × FinderId
 
 /-- the content the fetcher returns for a package (`none`: unknown package or failing fetch) -/
@@ -130,6 +130,20 @@ def OpResult.finished : OpResult → Bool
 def ErrorFree (rs : List OpResult) : Prop := ∀ r ∈ rs, r.clean = true
 
 instance (rs : List OpResult) : Decidable (ErrorFree rs) := by unfold ErrorFree; infer_instance
+
+theorem OpResult.clean_iff (r : OpResult) :
+    r.clean = true ↔ ∃ ds, r = .diags ds ∧ hasErrors ds = false := by
+  cases r with
+  | diags ds => simp [OpResult.clean]
+  | refused => simp [OpResult.clean]
+  | diverged => simp [OpResult.clean]
+
+theorem OpResult.finished_iff (r : OpResult) : r.finished = true ↔ r ≠ .diverged := by
+  cases r <;> simp [OpResult.finished]
+
+theorem errorFree_iff (rs : List OpResult) :
+    ErrorFree rs ↔ ∀ r ∈ rs, ∃ ds, r = .diags ds ∧ hasErrors ds = false := by
+  simp only [ErrorFree, OpResult.clean_iff]
 
 theorem Reach.of_perm {w : World} {ops ops' : List Op} (h : ops.Perm ops') {a : Art}
     (hr : Reach w ops a) : Reach w ops' a := by
